@@ -43,7 +43,7 @@ func RaceRelease(p any) { runtime.RaceReleaseMerge(unsafe.Pointer(reflect.ValueO
 func RaceAcquire(p any) { runtime.RaceAcquire(unsafe.Pointer(reflect.ValueOf(p).Pointer())) }
 
 //go:norace
-func raceReleaseAddr(p uintptr) { runtime.RaceReleaseMerge(unsafe.Pointer(p)) }
+func raceReleaseAddr(p unsafe.Pointer) { runtime.RaceReleaseMerge(p) }
 
 //go:norace
-func raceAcquireAddr(p uintptr) { runtime.RaceAcquire(unsafe.Pointer(p)) }
+func raceAcquireAddr(p unsafe.Pointer) { runtime.RaceAcquire(p) }
